@@ -1,6 +1,6 @@
 (** C15 — Knowledge base lookups, order and version stay consistent.
     Statements only; proofs in Proofs/KBProofs.v. *)
-From RRE Require Import Base.Sx Model.KB Proofs.KBProofs Proofs.KBRefineProofs Proofs.KBLinProofs.
+From RRE Require Import Base.Sx Model.KB Model.KBConc Proofs.KBProofs Proofs.KBRefineProofs Proofs.KBLinProofs Proofs.KBConcLockProofs Proofs.KBConcProofs Proofs.KBConcProgressProofs.
 From Coq Require Import Permutation.
 From Coq Require Import Sorting.Sorted.
 Open Scope Z_scope.
@@ -64,6 +64,59 @@ Theorem C15_lin_checker_decides : forall fuel k p, (length p <= fuel)%nat ->
    exists s, Permutation s p /\ rt s = true /\ replay k s = true).
 Proof. intros fuel k p H. split; [apply lin_sound|apply lin_complete; exact H]. Qed.
 Print Assumptions C15_lin_checker_decides.
+
+(** SEVERAL THREADS AT ONCE, as a theorem on the lock-level model (Model/KBConc.v): threads execute the methods as sequences
+    of micro-steps - invoke, acquire each guard of the method's acquisition list in program order (blocking on a conflicting
+    holder), compute the sequential body on the cells as they are, write the changed cells back ONE CELL PER STEP, drop the
+    guards one per step in reverse order, respond - and a schedule picks the next thread for every micro-step.  The
+    acquisition lists [src_locks] are the ones tools/consts.py reads from the current source (Generated/Consts.v
+    kb_lock_modes; the translator also refuses a method that takes a guard late, drops one early or touches a cell without
+    one).  The table is admissible: every list strictly ascending in the one global order, every cell a body reads locked,
+    every cell it may change write-locked. *)
+Theorem C15_source_lock_table_admissible : forall o,
+  ascending_from 0 (src_locks o) = true /\ covers (src_locks o) o = true.
+Proof. exact src_table_ok. Qed.
+Print Assumptions C15_source_lock_table_admissible.
+
+(** For EVERY family of programs and EVERY schedule: whenever no operation is in flight, the completed operations - with the
+    results the threads really computed from the shared cells, half-written by others or not - are a linearizable history of
+    the sequential specification (the same notion the monitor decides on the real threads: a permutation that respects real
+    time and replays), and the shared cells are exactly the state the linearization leaves. *)
+Theorem C15_every_interleaving_linearizable : forall progs sched,
+  let s := run src_locks sched (ginit progs) in
+  quiescent s ->
+  linearizable sinit (map to_cevent (hist s)) /\ cells s = sigma s /\
+  exists order, Permutation order (hist s) /\ Replays init (map hkey order) (cells s).
+Proof. exact (conc_linearizable src_locks src_table_ok). Qed.
+Print Assumptions C15_every_interleaving_linearizable.
+
+(** ... hence the monitor that judges the real threads accepts every run of the lock-level model (no alarm on it) *)
+Theorem C15_monitor_accepts_every_interleaving : forall progs sched,
+  let s := run src_locks sched (ginit progs) in
+  quiescent s -> lin (S (length (hist s))) sinit (map to_cevent (hist s)) = true.
+Proof. exact monitor_accepts_model_runs. Qed.
+Print Assumptions C15_monitor_accepts_every_interleaving.
+
+(** every method returns: while some program has not run to its end, some thread can take a micro-step (no deadlock),
+    whatever the schedule did before *)
+Theorem C15_no_deadlock : forall progs sched,
+  let s := run src_locks sched (ginit progs) in
+  ~ finished s -> exists t s', cstep src_locks t s = Some s'.
+Proof. exact src_no_deadlock. Qed.
+Print Assumptions C15_no_deadlock.
+
+(** non-vacuity, and the hypotheses matter: with the source's table a reader overlapping a writer's write-back is blocked
+    and the run is linearizable; with a table in which get_rule takes no guard, the SAME programs and schedule let the
+    reader see the new index with the old rule vector - Get 1 answers None although rule 1 is stored throughout - and the
+    monitor rejects the history *)
+Example C15_conc_example :
+  let progs := [[Add 0 5 10; Add 1 1 11; Add 2 9 12]; [Get 1]] in
+  let sched := repeat 0%nat 33 ++ repeat 1%nat 4 ++ repeat 0%nat 6 ++ repeat 1%nat 8 in
+  let good := run src_locks sched (ginit progs) in
+  let bad := run bad_locks sched (ginit progs) in
+  (length (hist good) = 4%nat /\ lin 5 sinit (map to_cevent (hist good)) = true) /\
+  (length (hist bad) = 4%nat /\ lin 5 sinit (map to_cevent (hist bad)) = false /\ table_ok bad_locks = false).
+Proof. vm_compute. repeat split; reflexivity. Qed.
 
 (** non-vacuity: an Add overlapping a Version query that already saw version 1 is linearizable (Add first); the same
     query having responded BEFORE the Add was invoked is not *)
